@@ -63,7 +63,8 @@ theorem runFrames_append (o : Opts) (fs1 fs2 : List HFrame) (s : HState) (acc : 
       | error e => rfl
       | ok p => exact ih _ _
 
-/-- A state in which the machine accepts nothing but heartbeats. -/
+/-- A state the machine never leaves (`serverClosing` accepts nothing but heartbeats; `done`
+    accepts, since fix D18, everything that parses, and stays `done`). -/
 def Final : HState → Prop
   | .done _ => True
   | .serverClosing _ _ => True
@@ -89,6 +90,18 @@ theorem runFrames_final {o : Opts} {s s' : HState} {fs : List HFrame} {acc acc' 
         rw [hst] at h
         obtain ⟨rfl, rfl⟩ := hsStep_final hs hst
         simpa using ih h
+
+/-- (fix D18) In `done` every frame that parses is accepted, and nothing is queued for it. -/
+theorem hsStep_done (o : Opts) (t : Triple) (f : HFrame) : hsStep o (.done t) f = .ok (.done t, []) := by
+  cases f <;> rfl
+
+theorem runFrames_done (o : Opts) (t : Triple) (fs : List HFrame) (acc : List CFrame)
+    (hb : ∀ f ∈ fs, f ≠ .bad) : runFrames o (.done t) fs acc = (.ok (.done t), acc) := by
+  induction fs with
+  | nil => rfl
+  | cons f fs ih =>
+    rw [runFrames_cons _ _ _ _ _ (hb f (by simp)), hsStep_done]
+    simpa using ih (fun g hg => hb g (by simp [hg]))
 
 /-! ## `runReads` unfolded one read at a time -/
 
@@ -150,7 +163,9 @@ def Inv (o : Opts) (s : HState) (acc : List CFrame) (pre : List HFrame) : Prop :
       serverSupports m o.mechanism = true ∧ serverSupports l o.locale = true ∧
       makeTuneOk o.tuning st = .ok t ∧
       acc = [.startOk o.mechanism o.response o.locale o.information, .tuneOk t, .open_ o.vhost]
-  | .done t => ∃ m l st, pre = [.start m l, .tune st, .openOk] ∧
+  -- (fix D18) whatever parses is accepted behind OpenOk, and nothing is queued for it
+  | .done t => ∃ m l st extra, pre = [.start m l, .tune st, .openOk] ++ extra ∧
+      (∀ f ∈ extra, f ≠ .bad) ∧
       serverSupports m o.mechanism = true ∧ serverSupports l o.locale = true ∧
       makeTuneOk o.tuning st = .ok t ∧
       acc = [.startOk o.mechanism o.response o.locale o.information, .tuneOk t, .open_ o.vhost]
@@ -161,9 +176,18 @@ def Inv (o : Opts) (s : HState) (acc : List CFrame) (pre : List HFrame) : Prop :
              .closeOk]
 
 theorem Inv.step {o : Opts} {s s' : HState} {acc out : List CFrame} {pre : List HFrame} {f : HFrame}
-    (hi : Inv o s acc pre) (hf : f ≠ .heartbeat) (h : hsStep o s f = .ok (s', out)) :
+    (hi : Inv o s acc pre) (hf : f ≠ .heartbeat) (hb : f ≠ .bad) (h : hsStep o s f = .ok (s', out)) :
     Inv o s' (acc ++ out) (pre ++ [f]) := by
-  cases s <;> cases f <;> simp [hsStep.eq_def] at h hf
+  by_cases hd : ∃ t, s = .done t
+  · obtain ⟨t, rfl⟩ := hd
+    obtain ⟨rfl, rfl⟩ := hsStep_final (s := .done t) trivial h
+    obtain ⟨m, l, st, extra, rfl, hex, hm, hl, ht, rfl⟩ := hi
+    refine ⟨m, l, st, extra ++ [f], by simp, ?_, hm, hl, ht, by simp⟩
+    intro g hg
+    rcases List.mem_append.mp hg with hg | hg
+    · exact hex g hg
+    · rw [List.mem_singleton.mp hg]; exact hb
+  cases s <;> cases f <;> simp [hsStep.eq_def] at h hf hd
   case start.start m l =>
     obtain ⟨rfl, rfl⟩ := hi
     split at h
@@ -186,7 +210,7 @@ theorem Inv.step {o : Opts} {s s' : HState} {acc out : List CFrame} {pre : List 
   case open_.openOk t =>
     obtain ⟨m, l, st, rfl, hm, hl, ht, rfl⟩ := hi
     obtain ⟨rfl, rfl⟩ := h
-    exact ⟨m, l, st, rfl, hm, hl, ht, rfl⟩
+    exact ⟨m, l, st, [], rfl, by simp, hm, hl, ht, rfl⟩
   case open_.close t code text =>
     obtain ⟨m, l, st, rfl, hm, hl, ht, rfl⟩ := hi
     obtain ⟨rfl, rfl⟩ := h
@@ -216,7 +240,7 @@ theorem Inv.runFrames {o : Opts} {s s' : HState} {acc acc' : List CFrame} {pre f
           have : (f :: fs).filter (· ≠ .heartbeat) = f :: fs.filter (· ≠ .heartbeat) := by
             simp [hh]
           rw [this]
-          have := ih (hi.step hh hst) h
+          have := ih (hi.step hh hb hst) h
           simpa using this
 
 theorem Inv.finish_pushed {legacy : Bool} {o : Opts} {s : HState} {acc : List CFrame} {b : Bool} :
@@ -256,16 +280,48 @@ theorem Inv.prefix {o : Opts} {s : HState} {acc : List CFrame} {pre : List HFram
   | secure => obtain ⟨m, l, -, -, -, rfl⟩ := hi; exact ⟨⟨0, 0, 0⟩, by simp⟩
   | tune => exact hi.elim
   | open_ t => obtain ⟨m, l, st, -, -, -, -, rfl⟩ := hi; exact ⟨t, by simp⟩
-  | done t => obtain ⟨m, l, st, -, -, -, -, rfl⟩ := hi; exact ⟨t, by simp⟩
+  | done t => obtain ⟨m, l, st, extra, -, -, -, -, -, rfl⟩ := hi; exact ⟨t, by simp⟩
   | serverClosing c tx => obtain ⟨m, l, st, t, -, -, -, -, rfl⟩ := hi; exact ⟨t, by simp⟩
 
+theorem nonHbF_take_succ (reads : List Read) (k : Nat) :
+    ∃ tail, nonHbF (reads.take (k + 1)) = nonHbF (reads.take k) ++ tail := by
+  refine ⟨nonHbF reads[k]?.toList, ?_⟩
+  rw [List.take_add_one]
+  simp [nonHbF]
+
+/-- Before the machine is `done` (or `serverClosing`) it has accepted at most Start and Tune. -/
+theorem Inv.short {o : Opts} {s : HState} {acc : List CFrame} {pre : List HFrame}
+    (hi : Inv o s acc pre) (hs : ¬ Final s) : pre.length ≤ 2 := by
+  cases s with
+  | start => simp [hi.2]
+  | secure => obtain ⟨m, l, rfl, -⟩ := hi; simp
+  | tune => exact hi.elim
+  | open_ t => obtain ⟨m, l, st, rfl, -⟩ := hi; simp
+  | done t => exact (hs trivial).elim
+  | serverClosing c tx => exact (hs trivial).elim
+
+theorem prefix_of_short {α : Type} {p tail extra : List α} {a b c : α}
+    (h : p ++ tail = [a, b, c] ++ extra) (hl : p.length ≤ 2) : p <+: [a, b] := by
+  match p, hl with
+  | [], _ => exact List.nil_prefix
+  | [x], _ =>
+    simp at h
+    rw [h.1]; exact ⟨[b], rfl⟩
+  | [x, y], _ =>
+    simp at h
+    obtain ⟨rfl, rfl, -⟩ := h
+    exact List.prefix_refl _
+  | _ :: _ :: _ :: _, hl => simp at hl
+
 /-- A connection comes only out of a `done` state reached over a prefix of the reads, none of
-    which ended the stream. -/
+    which ended the stream; before the last read of that prefix (index `k`) the machine was not
+    `done` yet. -/
 theorem Inv.connected {o : Opts} {s : HState} {acc : List CFrame} {pre : List HFrame} {t : Triple}
-    (reads : List Read) (hi : Inv o s acc pre)
+    (reads : List Read) (hi : Inv o s acc pre) (hs : ¬ Final s)
     (h : (runReads false o s reads acc).result = .connected t) :
-    ∃ k, Inv o (.done t) (runReads false o s reads acc).pushed (pre ++ nonHbF (reads.take k)) ∧
-      ∀ r ∈ reads.take k, r.ending = .wouldBlock ∨ r.ending = .silence := by
+    ∃ k, Inv o (.done t) (runReads false o s reads acc).pushed (pre ++ nonHbF (reads.take (k + 1))) ∧
+      (∃ s0 acc0, ¬ Final s0 ∧ Inv o s0 acc0 (pre ++ nonHbF (reads.take k))) ∧
+      ∀ r ∈ reads.take (k + 1), r.ending = .wouldBlock ∨ r.ending = .silence := by
   induction reads generalizing s acc pre with
   | nil => simp at h
   | cons r rs ih =>
@@ -280,7 +336,7 @@ theorem Inv.connected {o : Opts} {s : HState} {acc : List CFrame} {pre : List HF
         rw [hend] at h
         cases s' <;> simp [runReads.finish] at h
         subst h
-        refine ⟨1, ?_, ?_⟩
+        refine ⟨0, ?_, ⟨s, acc, hs, by simpa using hi⟩, ?_⟩
         · simpa [nonHbF_cons, runReads.finish] using hi'
         · simp [hend]
       | wouldBlock =>
@@ -288,25 +344,28 @@ theorem Inv.connected {o : Opts} {s : HState} {acc : List CFrame} {pre : List HF
         cases s' with
         | done t' =>
           simp at h; subst h
-          refine ⟨1, ?_, ?_⟩
+          refine ⟨0, ?_, ⟨s, acc, hs, by simpa using hi⟩, ?_⟩
           · simpa [nonHbF_cons] using hi'
           · simp [hend]
         | serverClosing c tx => simp at h
         | tune => exact hi'.elim
         | start =>
-          obtain ⟨k, hk, he⟩ := ih hi' h
-          refine ⟨k + 1, ?_, ?_⟩
+          obtain ⟨k, hk, ⟨s0, acc0, hs0, hk0⟩, he⟩ := ih hi' (by simp [Final]) h
+          refine ⟨k + 1, ?_, ⟨s0, acc0, hs0, ?_⟩, ?_⟩
           · simpa [nonHbF_cons, List.append_assoc] using hk
+          · simpa [nonHbF_cons, List.append_assoc] using hk0
           · simpa [hend] using he
         | secure =>
-          obtain ⟨k, hk, he⟩ := ih hi' h
-          refine ⟨k + 1, ?_, ?_⟩
+          obtain ⟨k, hk, ⟨s0, acc0, hs0, hk0⟩, he⟩ := ih hi' (by simp [Final]) h
+          refine ⟨k + 1, ?_, ⟨s0, acc0, hs0, ?_⟩, ?_⟩
           · simpa [nonHbF_cons, List.append_assoc] using hk
+          · simpa [nonHbF_cons, List.append_assoc] using hk0
           · simpa [hend] using he
         | open_ t' =>
-          obtain ⟨k, hk, he⟩ := ih hi' h
-          refine ⟨k + 1, ?_, ?_⟩
+          obtain ⟨k, hk, ⟨s0, acc0, hs0, hk0⟩, he⟩ := ih hi' (by simp [Final]) h
+          refine ⟨k + 1, ?_, ⟨s0, acc0, hs0, ?_⟩, ?_⟩
           · simpa [nonHbF_cons, List.append_assoc] using hk
+          · simpa [nonHbF_cons, List.append_assoc] using hk0
           · simpa [hend] using he
 
 
